@@ -210,7 +210,7 @@ def prune(sample: Data, start_nodes: torch.Tensor, radius=1) -> Data:
     D = torch.eye(A.size(0))
     D_sum = torch.eye(A.size(0))
     for _ in range(radius):
-        D = torch.matmul(D, A)
+        D = (torch.matmul(D, A) > 0).float()
         D_sum += D
     center_paths = D_sum[start_nodes].sum(axis=0)  # type: ignore
     reachable_nodes = torch.where(center_paths > 0)[0]
